@@ -262,14 +262,15 @@ F = {
 }
 F.update(json.load(open(os.path.join(HERE, 'docs_extra.json'))) if os.path.exists(os.path.join(HERE, 'docs_extra.json')) else {})
 
-UPSTREAM = {'generalname-terminator-not-reset': 'd1f7489 "fix: reset the terminating-NUL decision for every subjectAltName entry"',
+UPSTREAM = {'sha1-root-check-memcmp-null': 'c39e5a7 "fix: SHA-1 signatures are only acceptable on self-issued certificates (inverted root test)" (the commonName Memcmp was replaced by a DN hash comparison)',
+            'generalname-terminator-not-reset': 'd1f7489 "fix: reset the terminating-NUL decision for every subjectAltName entry"',
             'pbkdf2-long-password-hmac-overflow': 'ca0234f "fix: PBKDF2 must hash passwords longer than the HMAC-SHA1 block size instead of overflowing the HMAC pad"'}
 
 for name, f in F.items():
     v = V.get(name, {})
     patch = os.path.exists(os.path.join(HERE, name + '.patch'))
     md = ['# %s' % f['title'], '',
-          ('* **Finding id / patch:** `%s` (`findings/%s.patch`)' % (name, name)) if patch else
+          ('* **Finding id / patch:** `%s` (`findings/%s.patch`; apply the patches in the order of `findings/ORDER.txt`)' % (name, name)) if patch else
           ('* **Finding id:** `%s` - **already fixed in /repo HEAD** by commit %s while this campaign was running (found independently here; no patch needed, the reproducer now passes on /repo and is kept as a regression input)' % (name, UPSTREAM.get(name, '?'))),
           '* **Where:** %s  (line numbers as of the /repo snapshot this campaign started from, commit 04ff8ed; later fix commits in /repo shift some of them by a few lines)' % f['where'],
           '* **Failure signature:** on the fully patched tree minus this fix: `%s`; on unpatched /repo the same input gives `%s` (an earlier defect may fire first there)' % (v.get('sig_minus', '?'), v.get('sig_repo', '?')),
